@@ -90,17 +90,18 @@ func bcp47ToOtf(tag language.Tag) (otfScript, otfLang, error) {
 		scriptTag, _ := tag.Script()
 		bcpScript := scriptTag.String()
 
+		// Several OpenType tags can stand for the same BCP 47 value; choose
+		// the smallest one, so that the result does not depend on the
+		// iteration order of the maps.
 		for key, val := range langBcp47 {
-			if val == bcpLang {
+			if val == bcpLang && (lang == "" || string(key) < lang) {
 				lang = string(key)
-				break
 			}
 		}
 
 		for key, val := range scriptBcp47 {
-			if val == bcpScript {
+			if val == bcpScript && (script == "" || string(key) < script) {
 				script = string(key)
-				break
 			}
 		}
 	}
